@@ -73,6 +73,16 @@ def concurrent(ck):
     L.need(kinds.get("CObs", 0) > 500, "too few concurrent observations")
 
 
+def replay(ck, obj):
+    """check.py --replay <violation file>: validate the recorded trace of the violation again (the trace is the replayable input;
+    re-running the driver with the recorded seed regenerates it)."""
+    r = obj.get("replay") or {}
+    trace = r.get("trace")
+    if not trace or not os.path.exists(trace):
+        raise Inconclusive("replay: recorded trace %s is gone; re-run the check with VERIF_SEED=%s" % (trace, obj.get("seed")))
+    L.validate(ck, "CertStoreTrace", trace, "replay")
+
+
 MANIFEST = dict(
     text=("TLC exhaustively checks the C09 clauses on CertStore.tla (contiguity and exactness of every read against the abstract history, "
           "power table of every instance <= latest+1 = fold of the deltas from the initial table both from memory and from the datastore alone, "
